@@ -30,7 +30,9 @@ KERNELS = {
     "k_opaque": ["ptr"],
     "k_malloc_int": ["n32"], "k_malloc_vs24": ["n32"], "k_malloc_one_long": [],
     "k_app_pointer": ["any64"], "k_accept": ["any64"],
+    "k_plain_plus_ptr": ["ptr", "n32"],
 }
+OPTIONAL = {"k_plain_plus_ptr"}
 # offsets added by derived-address operations: the result may leave the region only because the
 # *object* designated by an inside pointer does not fit before the end of the region
 DERIVED = {"k_addrof_field_a": 0, "k_addrof_field_c": 8, "k_addrof_arr_elem": None}
@@ -102,6 +104,54 @@ def check_op(ctx, k, log):
     ctx.validate(k, vs, base=b0 if (mem or k.startswith("k_malloc") or True) else None, mem=mem, env=env)
 
 
+def check_vol(ctx, k, log):
+    """pointer operations on a sandbox-resident pointer, every fetch of the cell adversarial"""
+    from specs.C09 import adversarial
+    adversarial(ctx)
+    base = ctx.sandbox_base(log)
+    size = 1 << log
+    cell = ctx.sym("cell", 64)
+    ctx.assume(z3.UGE(cell, base), z3.ULE(cell - base, BV(size - 8, 64)))
+    args = [base, cell]
+    if k != "k_vol_field":
+        fn = ctx.eng.m.funcs[k]
+        n = ctx.sym("n", ctx.eng.bits_of(fn.params[2][0]))
+        args.append(n)
+    paths = ctx.run(k, args)
+    for q in paths:
+        if q.status == "ret":
+            known = []
+            if k == "k_vol_field":
+                # the struct pointer fetched from the cell may designate an object that straddles the end of the region
+                adv = q.user.get("adv") or []
+                rep = zext(adv[0][2], 64) if adv else BV(0, 64)
+                known = [("C03-object-straddles-end", z3.UGT(rep, BV(size - 12, 64)))]
+            ctx.require(q, z3.Or(q.ret == 0, ctx.in_region(q.ret, base, size)),
+                        "the produced pointer is null or inside the sandbox whatever the sandbox writes to the cell between rlbox's reads", known=known)
+    ctx.only(paths, "ret", "abort")
+    ctx.expect(paths, ret=1)
+
+
+def check_small(ctx, k):
+    """B32S: only 64 KiB of the 4 GiB representation space is sandbox memory"""
+    base = ctx.sandbox_base(32)
+    mem = 1 << 16
+    args = [base]
+    if "malloc" in k:
+        c = ctx.sym("count", 32)
+        args.append(c)
+    else:
+        a = ctx.sym("addr", 64)
+        args.append(a)
+    paths = ctx.run(k, args)
+    for q in paths:
+        if q.status == "ret":
+            ctx.require(q, z3.Or(q.ret == 0, ctx.in_region(q.ret, base, mem)),
+                        "the produced pointer is null or inside the sandbox's memory (not merely inside its address window)")
+    ctx.only(paths, "ret", "abort")
+    ctx.expect(paths, ret=1, abort=1)
+
+
 def jobs(tier, seed):
     out = []
     backends = [("B32", 32)] + ([("B16", 16)] if tier == "thorough" else [])
@@ -110,5 +160,12 @@ def jobs(tier, seed):
         for gi, grp in enumerate(C.chunks(names, 8)):
             src = '#include "verif_sandbox.hpp"\nusing S = %s;\n#include "C03_kernels.inc"\n' % sbx
             out.append(Job("C03_%s_%d" % (sbx, gi), src,
-                           [dict(name="%s %s" % (sbx, k), fn=check_op, kw=dict(k=k, log=log)) for k in grp]))
+                           [dict(name="%s %s" % (sbx, k), fn=check_op, kw=dict(k=k, log=log), optional=(k in OPTIONAL)) for k in grp]))
+    for sbx, log in backends[:1]:
+        src = '#include "verif_sandbox.hpp"\nusing S = %s;\n#include "C03_kernels.inc"\n' % sbx
+        out.append(Job("C03_%s_vol" % sbx, src, [dict(name="%s adversarial %s" % (sbx, k), fn=check_vol, kw=dict(k=k, log=log))
+                                                 for k in ("k_vol_add", "k_vol_sub", "k_vol_addridx", "k_vol_field")], native=False))
+    ssrc = '#include "verif_sandbox.hpp"\nusing S = B32S;\n#include "C03_small.inc"\n'
+    out.append(Job("C03_B32S", ssrc, [dict(name="B32S " + k, fn=check_small, kw=dict(k=k)) for k in ("k_small_malloc_int", "k_small_malloc_vs24", "k_small_accept", "k_small_assign")],
+                   native=False))
     return out
